@@ -1492,9 +1492,14 @@ impl<'a, 'b> InternalDelphiLogicalLineParser<'a, 'b> {
         }
 
         let paren_level = self.paren_level;
-        while !(matches!(self.get_token_type::<-1>(), Some(TT::Op(OK::RParen)))
-            && paren_level >= self.paren_level)
+        // The opening `(` must always be consumed, even directly after a `)`,
+        // otherwise callers that loop on `(` never make progress.
+        let mut at_opening_paren = true;
+        while at_opening_paren
+            || !(matches!(self.get_token_type::<-1>(), Some(TT::Op(OK::RParen)))
+                && paren_level >= self.paren_level)
         {
+            at_opening_paren = false;
             match self.get_current_token_type() {
                 Some(TT::Op(OK::Semicolon | OK::LParen)) => fix_next_eq(self),
                 None => break,
